@@ -75,6 +75,12 @@ def bump (s : DynamicPool) (n padding : Nat) : Option (Nat × Nat) × DynamicPoo
   (some (s.pages.length - 1, ptr),
    { s with high := ptr, free := ptr + n + padding, pages := pushBlk s.pages ⟨ptr, n, n + padding⟩, undo := true })
 
+/-- the page-expansion block of `cc_dynamic_pool_malloc` after the new page has been obtained:
+the page is linked in front of the chain and becomes the current one -/
+def expand (s : DynamicPool) (nextMax fresh : Nat) : DynamicPool :=
+  { s with pages := { size := nextMax, bytes := List.replicate nextMax fresh, blocks := [] } :: s.pages,
+           high := 0, free := 0, topPageSize := nextMax }
+
 /-- `cc_dynamic_pool_malloc` -/
 def malloc (grow : Nat → Nat) (fresh : Nat) (s : DynamicPool) (n : Nat) (m : Mem) :
     Option (Nat × Nat) × DynamicPool × Mem :=
@@ -90,9 +96,7 @@ def malloc (grow : Nat → Nat) (fresh : Nat) (s : DynamicPool) (n : Nat) (m : M
     if s.isFixed || n + padding > nextMax then (none, s, m) else
     let a := m.alloc                      -- mem_alloc(next_max + sizeof(PageInfo))
     if !a.1 then (none, s, a.2) else
-    let s1 := { s with pages := { size := nextMax, bytes := List.replicate nextMax fresh, blocks := [] } :: s.pages,
-                       high := 0, free := 0, topPageSize := nextMax }
-    let r := s1.bump n padding
+    let r := (s.expand nextMax fresh).bump n padding
     (r.1, r.2, a.2)
   else
     let r := s.bump n padding
@@ -186,6 +190,25 @@ def step (grow : Nat → Nat) (fresh : Nat) (s : DynamicPool) (op : Op) (m : Mem
   | .release p => (none, s.release p, m)
   | .reset => let r := s.reset m; (none, r.1, r.2)
   | .write off n v => let r := s.write off n v m; (none, r.1, r.2)
+
+open Spec.DPool (Op) in
+/-- the spec operation a model step corresponds to: the refusal flag is the allocator's next answer -/
+def annotate (op : Op) (m : Mem) : Op :=
+  match op with
+  | .malloc n _ => .malloc n (!m.alloc.1)
+  | .calloc c k _ => .calloc c k (!m.alloc.1)
+  | op => op
+
+open Spec.DPool (Op) in
+/-- run a history; also returns the history annotated with the refusals that happened -/
+def run (grow : Nat → Nat) (fresh : Nat) (s : DynamicPool) (ops : List Op) (m : Mem) :
+    List (Option (Nat × Nat)) × List Op × DynamicPool × Mem :=
+  match ops with
+  | [] => ([], [], s, m)
+  | op :: ops =>
+    let r := step grow fresh s op m
+    let rs := run grow fresh r.2.1 ops r.2.2
+    (r.1 :: rs.1, annotate op m :: rs.2.1, rs.2.2.1, rs.2.2.2)
 
 end DynamicPool
 end CC
